@@ -48,6 +48,10 @@ type PhiRec struct {
 	Init  Val
 	Havoc Val
 	Back  Val // set on loopback
+	// loop-carried state that lives in a memory cell (a field of a struct the loop body updates through
+	// a pointer, a captured local) rather than in an SSA φ: where to read its value at the back edge
+	MemObj int
+	MemKey string
 }
 
 func newState() *State {
@@ -648,6 +652,12 @@ func (x *Explorer) runBlock(fr *Frame, b *ssa.BasicBlock, pred *ssa.BasicBlock, 
 			for i := range st.loops {
 				if st.loops[i].Tag == tag {
 					for j := range st.loops[i].Phis {
+						if mk := st.loops[i].Phis[j].MemKey; mk != "" {
+							if o := st.mem[st.loops[i].Phis[j].MemObj]; o != nil {
+								st.loops[i].Phis[j].Back = o.F[mk]
+							}
+							continue
+						}
 						ph := x.findPhi(b, st.loops[i].Phis[j].Name)
 						if ph != nil {
 							st.loops[i].Phis[j].Back = x.eval(fr, st, ph.Edges[predIndex(b, pred)])
@@ -674,12 +684,14 @@ func (x *Explorer) runBlock(fr *Frame, b *ssa.BasicBlock, pred *ssa.BasicBlock, 
 			fr.env[ph] = hv
 			rec.Phis = append(rec.Phis, PhiRec{Name: ph.Name(), Init: init, Havoc: hv})
 		}
-		st.loops = append(st.loops, rec)
-		st.events = append(st.events, Event{Kind: "loopenter", Method: tag, Loop: tag, Fn: fr.fn, Seq: len(st.events)})
 		// loop-carried state that is not an SSA φ: local variables whose address is taken (so they live in
 		// memory cells) and that the loop body stores to. Their content at the start of the symbolic
-		// iteration is whatever earlier iterations left, not the pre-loop value: forget it.
-		x.havocLoopMemory(fr, st, b, li.body[b], tag)
+		// iteration is whatever earlier iterations left, not the pre-loop value: forget it — and record
+		// them like φs (initial value, havoc'd value, value at the back edge) so that accumulators kept in a
+		// struct or a captured variable are closed by the same induction
+		rec.Phis = append(rec.Phis, x.havocLoopMemory(fr, st, b, li.body[b], tag)...)
+		st.loops = append(st.loops, rec)
+		st.events = append(st.events, Event{Kind: "loopenter", Method: tag, Loop: tag, Fn: fr.fn, Seq: len(st.events)})
 	} else if pred != nil {
 		// ordinary phis: evaluate simultaneously
 		var phis []*ssa.Phi
@@ -699,7 +711,8 @@ func (x *Explorer) runBlock(fr *Frame, b *ssa.BasicBlock, pred *ssa.BasicBlock, 
 	x.runInstrs(fr, b, firstNonPhi(b), st, k)
 }
 
-func (x *Explorer) havocLoopMemory(fr *Frame, st *State, header *ssa.BasicBlock, body map[*ssa.BasicBlock]bool, tag string) {
+func (x *Explorer) havocLoopMemory(fr *Frame, st *State, header *ssa.BasicBlock, body map[*ssa.BasicBlock]bool, tag string) []PhiRec {
+	var recs []PhiRec
 	type loc struct {
 		a    *ssa.Alloc
 		path string
@@ -798,6 +811,7 @@ func (x *Explorer) havocLoopMemory(fr *Frame, st *State, header *ssa.BasicBlock,
 			continue // fetched rows are governed by the freshness rules; a row *literal* built before the loop is plain memory
 		}
 		name := tag + "mem:" + l.a.Comment + l.path
+		init := o.F[p.Path+l.path]
 		switch {
 		case isDecType(l.t):
 			o.F[p.Path+l.path] = &DecV{L: linAtom("loop:" + name)}
@@ -806,7 +820,12 @@ func (x *Explorer) havocLoopMemory(fr *Frame, st *State, header *ssa.BasicBlock,
 		default:
 			o.F[p.Path+l.path] = x.typed(st, &Sym{N: name, T: l.t})
 		}
+		if init == nil {
+			init = zeroVal(l.t)
+		}
+		recs = append(recs, PhiRec{Name: "mem:" + l.a.Comment + l.path, Init: init, Havoc: o.F[p.Path+l.path], MemObj: p.O, MemKey: p.Path + l.path})
 	}
+	return recs
 }
 
 func (x *Explorer) findPhi(b *ssa.BasicBlock, name string) *ssa.Phi {
